@@ -29,16 +29,20 @@ var ruleIdx = &Rule{
 					if !ok {
 						continue
 					}
-					bo, ok := mu.Value.(*ssa.BinOp)
-					if !ok || bo.Op != token.SUB {
-						continue
+					// the recorded value: len(S)-1 (read after the append) or len(S) (read before it)
+					minusOne := false
+					var lc *ssa.Call
+					if bo, ok := mu.Value.(*ssa.BinOp); ok && bo.Op == token.SUB {
+						one, ok := bo.Y.(*ssa.Const)
+						if !ok || one.Value == nil || one.Value.String() != "1" {
+							continue
+						}
+						lc, _ = bo.X.(*ssa.Call)
+						minusOne = true
+					} else {
+						lc, _ = mu.Value.(*ssa.Call)
 					}
-					one, ok := bo.Y.(*ssa.Const)
-					if !ok || one.Value == nil || one.Value.String() != "1" {
-						continue
-					}
-					lc, ok := bo.X.(*ssa.Call)
-					if !ok {
+					if lc == nil {
 						continue
 					}
 					if bi, ok := lc.Call.Value.(*ssa.Builtin); !ok || bi.Name() != "len" {
@@ -93,6 +97,23 @@ var ruleIdx = &Rule{
 						if body[b] {
 							after = nil // inside a loop the next iteration's append legitimately follows
 						}
+					}
+					if !minusOne {
+						// len(S) itself is the index of the element about to be appended: the append must follow on
+						// every path and none may precede the read
+						preceded := mayFollow(f, isAppendStore, isLoad)
+						followed := mustFollow(f, isLoad, isAppendStore)
+						switch {
+						case len(preceded) > 0:
+							obs = append(obs, Ob{Key: key, Site: c.Pos(mu.Pos()), Verdict: VIOLATION,
+								Note: "len(" + S.Name() + ") is recorded as the index of the new element although " + S.Name() + " has already been appended to on some path: the index table points one slot too high and a later replacement overwrites the neighbouring element"})
+						case len(followed) > 0:
+							obs = append(obs, Ob{Key: key, Site: c.Pos(mu.Pos()), Verdict: VIOLATION,
+								Note: "len(" + S.Name() + ") is recorded as the index of an element that is not appended on every path afterwards"})
+						default:
+							obs = append(obs, Ob{Key: key, Site: c.Pos(mu.Pos()), Verdict: OK, Note: "length read before the append"})
+						}
+						continue
 					}
 					switch {
 					case len(before) > 0:
